@@ -1,14 +1,14 @@
 (* C03/Properties.v — property theorems for the PPPoE gate model and the RADIUS decision.
 
-   STATUS (be exact): the full statement
-       C03_gate : forall v pool evs i, vrep v = true -> mon_run i (snd (run v (init pool) evs)) mon0 <> None
-   ("on every event sequence the monitor never sees a service output for a subscriber whose current
-   attempt has no accept") is NOT proved here: the invariant [Proofs.Rb] is written down and its preservation
-   was machine-checked for the timer events and for single frame kinds by case analysis, but the whole case
-   analysis did not finish inside the time budget.  What is proved at full strength (all states, both
-   variants unless said) are the structural gates below; the unbounded statement is replaced by
-   [C03_gate_bounded_sweep] (bound in the statement) and by the [_refuted] witnesses for today's code. *)
-From OV Require Import Common.Base C03.Model C03.Proofs.
+   STATUS (be exact): the unbounded theorems over ALL event lists from the initial state are proved for the
+   repaired session logic ([vrep v = true], either FSM table): [C03_gate], [C03_reject_clean_partial],
+   [C03_renegotiation_reauth] (+ [_events] form), by the inductive invariant [GateInv.Inv] (proofs in
+   GateInv.v / GateMain.v; trace predicates used in the statements in GateDefs.v).
+   [C03_reject_clean_partial] is partial in exactly one respect: it covers attempts of a session that has not
+   been accepted since its PADR; a REJECTED RE-authentication of a session that had been accepted keeps the
+   lease in this model because the code keeps it ([C03_reject_clean_reauth_refuted], defect 3 of notes/C03.md).
+   For today's (defective) session logic see the [_refuted] witnesses. *)
+From OV Require Import Common.Base C03.Model C03.Proofs C03.GateDefs C03.GateInv C03.GateMain.
 
 (* Outside the Network/Open phases an IPCP, IPv6CP or IPv6 (RS/NS) frame changes nothing and produces no
    output: internal/ppp/dispatcher.go inNetworkPhase. *)
@@ -39,19 +39,123 @@ Print Assumptions C03_aaa_unmatched_ignored.
 (* Repaired variant: when LCP leaves Opened the outstanding request is forgotten (a late answer can no longer
    match, by C03_aaa_correlation), the phase is Establish (NCP frames are dropped, by C03_ncp_gated_partial) and
    both NCP automata are in a state from which neither a timeout nor a Protocol-Reject makes them send. *)
-Theorem C03_renegotiation_reauth_partial : forall v i m,
+Theorem C03_lcp_down_resets : forall v i m,
   vrep v = true ->
   let m' := on_lcp_down v i m in
   pend (ms m') = None /\ pty (ms m') = PtNone /\ ph (ms m') = PEstablish /\
   quietb (ipcp (ms m')) = true /\ quietb (ip6cp (ms m')) = true.
 Proof. exact lcp_down_resets. Qed.
-Print Assumptions C03_renegotiation_reauth_partial.
+Print Assumptions C03_lcp_down_resets.
 
 (* RADIUS provider + AAA component: the published answer is Allowed exactly when the username was not the
    fallback and the server answered Access-Accept (whole finite table). *)
 Theorem C03_radius_allow_iff : forall fb r, aaa_allowed fb r = true <-> fb = false /\ r = SrvAccept.
 Proof. exact radius_allow_iff. Qed.
 Print Assumptions C03_radius_allow_iff.
+
+(* ---------------------------------------------------------------------------------------------------------
+   The unbounded theorems (repaired session logic, either FSM table, any pool size, EVERY event list). *)
+
+(* C03_gate.  For every history and every subscriber slot the trace monitor never flags: every service output
+   (any IPCP/IPv6CP packet, RA/NA, pool allocation, lifecycle-Active, southbound add) for the slot is preceded
+   by an allowed AAA answer for the request that slot most recently published, with no authentication reset
+   (new PADR, LCP leaving Opened, termination) in between. *)
+Theorem C03_gate : forall v pool evs i, vrep v = true ->
+  mon_run i (snd (run v (init pool) evs)) mon0 <> None.
+Proof. exact GateMain.gate. Qed.
+Print Assumptions C03_gate.
+Example C03_gate_nonvacuous :
+  let r := run (mkV true false) (init 2) (
+    [EvOpen 0; EvFrame 0 (FrLcp (FCreq QGood)); EvFrame 0 (FrLcp (FCack true)); EvFrame 0 FrChapResp; EvAAA 1 AAcc;
+     EvFrame 0 (FrIpcp (FCreq QGood)); EvFrame 0 (FrIpcp (FCack true)); EvFrame 0 FrRs]) in
+  vrep (mkV true false) = true /\ no_service 0 (snd r) = false /\ mon_run 0 (snd r) mon0 <> None /\
+  (* the monitor is not trivially satisfied: the same outputs without the accept are flagged *)
+  mon_run 0 [(EvFrame 0 FrRs, [(0, ORa)])] mon0 = None.
+Proof. vm_compute. repeat split; auto; discriminate. Qed.
+Print Assumptions C03_gate_nonvacuous.
+
+(* C03_reject_clean (partial, see STATUS).  [ever_ok i tr mon0 false = false]: since slot i's last PADR no
+   allowed AAA answer has arrived for a request it had outstanding — the answer was a reject, an error, is
+   still missing, belonged to another request, or nothing was ever asked.  Then, after ANY history, the slot's
+   session holds nothing (no pool lease, no IPv4 address, not in Network/Open) and both NCP automata are in
+   Initial/Starting/Closed. *)
+Theorem C03_reject_clean_partial : forall v pool evs i s, vrep v = true ->
+  nth_error (sl (fst (run v (init pool) evs))) i = Some s ->
+  ever_ok i (snd (run v (init pool) evs)) mon0 false = false ->
+  inert s = true.
+Proof. exact GateMain.reject_clean. Qed.
+Print Assumptions C03_reject_clean_partial.
+Definition ev_pending := [EvOpen 0; EvFrame 0 (FrLcp (FCreq QGood)); EvFrame 0 (FrLcp (FCack true)); EvFrame 0 FrChapResp].
+Example C03_reject_clean_nonvacuous :
+  let v := mkV true false in
+  (* reject, error, missing decision, answer for another request: hypothesis met, request was outstanding *)
+  Forall (fun evs => ever_ok 0 (snd (run v (init 2) evs)) mon0 false = false /\
+                     option_map live (nth_error (sl (fst (run v (init 2) evs))) 0) = Some true)
+         [ev_pending ++ [EvAAA 1 ARej]; ev_pending ++ [EvAAA 1 AErr]; ev_pending; ev_pending ++ [EvAAA 7 AAcc]] /\
+  option_map pend (nth_error (sl (fst (run v (init 2) ev_pending))) 0) = Some (Some 1) /\
+  (* an accept falsifies the hypothesis and the session then does hold an address *)
+  ever_ok 0 (snd (run v (init 2) (ev_pending ++ [EvAAA 1 AAcc]))) mon0 false = true /\
+  option_map inert (nth_error (sl (fst (run v (init 2) (ev_pending ++ [EvAAA 1 AAcc])))) 0) = Some false.
+Proof.
+  intros v. repeat split; repeat (apply Forall_cons; [split|]); try apply Forall_nil;
+    timeout 20 (vm_compute; reflexivity).
+Qed.
+Print Assumptions C03_reject_clean_nonvacuous.
+(* what is missing for the full statement: accepted, renegotiated, re-authentication REJECTED (last event) — the
+   session keeps its lease (both variants; the code has no teardown on this path) *)
+Theorem C03_reject_clean_reauth_refuted : forall rep rfc,
+  let evs := ev_pending ++ [EvAAA 1 AAcc; EvFrame 0 (FrLcp (FCreq QGood)); EvFrame 0 (FrLcp (FCack true));
+                            EvFrame 0 FrChapResp; EvAAA 2 ARej] in
+  option_map holds_nothing (nth_error (sl (fst (run (mkV rep rfc) (init 2) evs))) 0) = Some false /\
+  free (fst (run (mkV rep rfc) (init 2) evs)) = 1.
+Proof. intros [] []; vm_compute; auto. Qed.
+Print Assumptions C03_reject_clean_reauth_refuted.
+
+(* C03_renegotiation_reauth.  Split any history at a point where slot i's monitor holds no accept (mn1; in
+   particular right after LCP left Opened, [C03_lcp_down_clears_accept]).  If in the continuation no allowed AAA
+   answer arrives for the request the slot has most recently published, the continuation contains no service
+   output (no IPCP/IPv6CP packet, RA/NA, allocation, activation, southbound add) for the slot. *)
+Theorem C03_renegotiation_reauth : forall v pool evs1 evs2 i mn1, vrep v = true ->
+  mon_run i (snd (run v (init pool) evs1)) mon0 = Some mn1 -> mok mn1 = false ->
+  accepted_in i (snd (run v (fst (run v (init pool) evs1)) evs2)) mn1 = false ->
+  no_service i (snd (run v (fst (run v (init pool) evs1)) evs2)) = true.
+Proof. exact GateMain.reauth. Qed.
+Print Assumptions C03_renegotiation_reauth.
+Theorem C03_lcp_down_clears_accept : forall v pool evs e i mn1,
+  mon_run i (snd (run v (init pool) (evs ++ [e]))) mon0 = Some mn1 ->
+  lcp_down_for i (snd (step v (fst (run v (init pool) evs)) e)) = true -> mok mn1 = false.
+Proof. exact GateMain.lcp_down_clears. Qed.
+Print Assumptions C03_lcp_down_clears_accept.
+(* the same on events only: LCP of slot i leaves Opened at event e; as long as no allowed AAA answer is
+   delivered afterwards, nothing the client or the timers do produces a service output for the slot *)
+Theorem C03_renegotiation_reauth_events : forall v pool evs1 e evs2 i, vrep v = true ->
+  lcp_down_for i (snd (step v (fst (run v (init pool) evs1)) e)) = true ->
+  (forall k a, In (EvAAA k a) evs2 -> allowed_of a = false) ->
+  no_service i (snd (run v (fst (run v (init pool) (evs1 ++ [e]))) evs2)) = true.
+Proof. exact GateMain.reauth_events. Qed.
+Print Assumptions C03_renegotiation_reauth_events.
+Example C03_renegotiation_reauth_nonvacuous :
+  let v := mkV true false in
+  let evs1 := ev_pending ++ [EvAAA 1 AAcc; EvFrame 0 (FrIpcp (FCreq QGood)); EvFrame 0 (FrIpcp (FCack true))] in
+  let e := EvFrame 0 (FrLcp (FCreq QGood)) in
+  let st1 := fst (run v (init 2) (evs1 ++ [e])) in
+  let probe := [EvFrame 0 (FrIpcp (FCreq QGood)); EvTimer 0 TIpcp; EvFrame 0 FrRs] in
+  (* the session was Open and served; the renegotiation is seen as LCP down *)
+  option_map ph (nth_error (sl (fst (run v (init 2) evs1))) 0) = Some POpen /\
+  lcp_down_for 0 (snd (step v (fst (run v (init 2) evs1)) e)) = true /\
+  (* re-authentication rejected: hypotheses met *)
+  (forall k a, In (EvAAA k a) ([EvFrame 0 (FrLcp (FCack true)); EvFrame 0 FrChapResp; EvAAA 2 ARej] ++ probe) ->
+               allowed_of a = false) /\
+  (* re-authentication accepted: service resumes, so the conclusion does depend on the hypothesis *)
+  no_service 0 (snd (run v st1 ([EvFrame 0 (FrLcp (FCack true)); EvFrame 0 FrChapResp; EvAAA 2 AAcc] ++ probe))) = false /\
+  (* today's code: accepted, renegotiated before IPCP converged: the probes are served without any new accept *)
+  no_service 0 (snd (run (mkV false false) (fst (run (mkV false false) (init 2) (ev_pending ++ [EvAAA 1 AAcc; e]))) probe)) = false.
+Proof.
+  intros v evs1 e st1 probe. repeat split; try (timeout 20 (vm_compute; reflexivity)).
+  intros k a H. cbn [app In] in H.
+  repeat (destruct H as [H|H]; [try discriminate H; inversion H; subst; reflexivity|]). destruct H.
+Qed.
+Print Assumptions C03_renegotiation_reauth_nonvacuous.
 
 (* Bounded: from each of 11 situations (fresh, LCP open, request pending, network, open, renegotiated,
    renegotiated with a request pending, re-authenticating, rejected, terminated, nothing) every sequence of TWO
